@@ -426,6 +426,9 @@ func c02(c *wk.Ctx) {
 		}
 		r.Violation(cs.sig("process-aborted"), fmt.Sprintf("RestoreRdbEntry ended the process (exit %d) under an accepted configuration: %s", d.Result.Exit, firstPanicLine(d.Result.Stderr)), json.RawMessage(d.Desc))
 	}
+	if wk.ReplayOne(c, "c02cases", func(idx int) interface{} { return c02extra{Chunked: idx >= 5000000} }, onDeath) {
+		return
+	}
 	n := c.N(6000, 120000)
 	type job struct {
 		start, end int
